@@ -46,6 +46,19 @@ def _read_log(path: Path):
     return recs
 
 
+def _rule_in_traceback(e: BaseException):
+    """the rule whose check() the exception escaped from (frame of _safe_check_rule), if any"""
+    tb, rule = e.__traceback__, None
+    while tb is not None:
+        if tb.tb_frame.f_code.co_name == "_safe_check_rule":
+            try:
+                rule = str(tb.tb_frame.f_locals["rule"].rule_id)
+            except Exception:  # noqa: BLE001
+                rule = None
+        tb = tb.tb_next
+    return rule
+
+
 def lint(root: Path, config: dict, paths: list[Path], mode: str, faillog: Path):
     """one run of the implementation; returns (violations | None, crash | None, failures, cpu seconds)"""
     from src.orchestrator.core import Orchestrator
@@ -61,7 +74,8 @@ def lint(root: Path, config: dict, paths: list[Path], mode: str, faillog: Path):
         else:
             vs = o.lint_files(paths)
     except BaseException as e:  # noqa: BLE001 - the oracle wants to see everything that escapes
-        crash = {"exc_type": type(e).__name__, "exc_msg": str(e)[:300], "tb": traceback.format_exc()[-1500:]}
+        crash = {"exc_type": type(e).__name__, "exc_msg": str(e)[:300], "tb": traceback.format_exc()[-1500:],
+                 "mro": [c.__name__ for c in type(e).__mro__], "rule": _rule_in_traceback(e)}
         if isinstance(e, (KeyboardInterrupt, SystemExit)):
             raise
     cpu = time.process_time() - t0
@@ -116,7 +130,13 @@ def main(jobs_path: str, out_path: str) -> int:
                 emit({"start": "baseline:" + bkey})
                 vs, crash, fails, cpu = lint(root, CONFIGS[ck], sibs, mode, faillog)
                 baselines[bkey] = vs
-                emit({"baseline": bkey, "n": None if vs is None else len(vs), "crash": crash, "failures": fails, "cpu": round(cpu, 3)})
+                by_file: dict[str, list] = {}
+                for v in vs or []:
+                    by_file.setdefault(v[1], [])
+                    if v[0] not in by_file[v[1]]:
+                        by_file[v[1]].append(v[0])
+                emit({"baseline": bkey, "n": None if vs is None else len(vs), "crash": crash, "failures": fails, "cpu": round(cpu, 3),
+                      "rules_by_file": {k: sorted(x) for k, x in by_file.items()}})
             emit({"start": case["id"]})
             off = root / case["name"]
             off.write_bytes(base64.b64decode(case["data"]))
